@@ -35,9 +35,12 @@ type Config struct {
 	MaxAttempts int      `json:"max_attempts"`
 	ReadMax     int      `json:"read_max"`
 	W           Weights  `json:"w"`
-	Enum        string   `json:"enum,omitempty"`         // description of an enumerated case (C06)
-	IOSameHost  bool     `json:"io_same_host,omitempty"` // all /io attempts come from one remote address
-	LogPark     bool     `json:"log_park,omitempty"`     // hold callers inside their log calls when the broker's lock turns out to be free there
+	Enum        string   `json:"enum,omitempty"`          // description of an enumerated case (C06)
+	IOSameHost  bool     `json:"io_same_host,omitempty"`  // all /io attempts come from one remote address
+	LogPark     bool     `json:"log_park,omitempty"`      // hold callers inside their log calls when the broker's lock turns out to be free there
+	HeldShut    bool     `json:"held_shutdown,omitempty"` // the shutdown may be let go while a lock section is blocked on the stalled terminal
+	LateClose   bool     `json:"late_close,omitempty"`    // the transports of a returned caller are closed later, at a step of their own (close_trans), not at once
+	Burst       bool     `json:"burst,omitempty"`         // several /io requests may start within one step (their set-up code runs concurrently)
 }
 
 // Weights are the relative frequencies of the action kinds.
@@ -59,6 +62,7 @@ type Action struct {
 	B []byte `json:"b,omitempty"` // payload: callback ID, line or output bytes
 	P bool   `json:"p,omitempty"` // writer parks in Write/Flush (start_in/start_io)
 	N int    `json:"n,omitempty"` // inline fault position (start_*): the n-th write op fails (1-based; 0 = none)
+	C int    `json:"c,omitempty"` // burst_io: number of requests started in the same step
 }
 
 func (a Action) String() string {
@@ -126,6 +130,7 @@ type attempt struct {
 	chunks       int
 	returnedStep int
 	closedTrans  bool
+	closeDue     bool // late-close runs: the simulator has decided to close the transports now
 	startedStep  int
 	gid          int64
 }
@@ -296,6 +301,7 @@ type sim struct {
 	parks     []*park
 	busy      *half // half inside a lock section (top of busyStack)
 	busyStack []*half
+	heldShut  bool        // the shutdown goroutine was let go while a lock section was blocked: it may wait for the broker\'s lock
 	lock      *sync.Mutex // the broker's own lock (log-park runs only)
 	shutPark  *park
 	shutDone  bool
